@@ -50,6 +50,8 @@ AdvSegClause(r) ==
 Clause(r) == CASE r.t = "seg" -> SegClause(r)
                [] r.t = "adv" -> AdvClause(r)
                [] r.t = "advseg" -> AdvSegClause(r)
+               \* the configurations are valid declarations: declaring one must not fail
+               [] r.t = "construct" -> IF r.ok THEN "ok" ELSE "declaring a valid mapping failed"
 
 Judge == i = 0 \/ LET r == Trace[i] c == Clause(r) IN
                   IF c = "ok" THEN TRUE ELSE PrintT(ToJson([id |-> r.id, clause |-> c]))
